@@ -99,61 +99,97 @@ Proof.
 Qed.
 Print Assumptions C01_cells.
 
-(* the property on that table: if the cell c owns sigma and no other converted
-   cell contains sigma (the MCNP cells partition the sense assignments), then
-   sigma lies in exactly one emitted non-FICTIVE volume, numbered c, when c is in
-   the conversion list (importance <> 0), and in none otherwise.
-   PARTIAL: stated for the table before renumber_surfaces / remove_empty_volumes /
-   remove_unused_volumes and the writer; C01_prune_sound_partial carries it
-   through renumber_surfaces and remove_unused_volumes, remove_empty_volumes is
-   tied and swept only. *)
-Theorem C01_partition_partial : forall sigma cden cells matching u0 u1 fuel todo cnt0 s' c,
+From T4V Require Import C01.ProofsEmpty C01.ProofsWritten.
+
+(* remove_empty_volumes, for a table with distinct keys: every surviving volume
+   keeps its denotation for every sigma consistent on the helper planes it is
+   given; only volumes whose denotation is false for every such sigma are
+   deleted (patently empty ones, e.g. the stand-in of an empty referenced cell,
+   and the INTE volumes using a deleted one); UNION operands pointing at deleted
+   volumes are dropped and a patently empty UNION volume gets the EQUA
+   PLUS u0 MINUS u1, which denotes false under the consistency fact; nothing is
+   added and FICTIVE flags are kept.  The loop terminates within the model's fuel
+   (each later round deletes a volume), so no fuel hypothesis is needed. *)
+Theorem C01_remove_empty_sound : forall u0 u1 d0, NoDup (keys d0) ->
+  NoDup (keys (remove_empty u0 u1 d0)) /\
+  (forall id v', lookup id (remove_empty u0 u1 d0) = Some v' ->
+     exists v, lookup id d0 = Some v /\ v_fict v' = v_fict v) /\
+  forall sigma, consistent sigma u0 u1 ->
+    (forall id v' b, lookup id (remove_empty u0 u1 d0) = Some v' -> Vden sigma d0 id b ->
+       Vden sigma (remove_empty u0 u1 d0) id b) /\
+    (forall id v b, lookup id d0 = Some v -> lookup id (remove_empty u0 u1 d0) = None ->
+       Vden sigma d0 id b -> b = false).
+Proof. exact remove_empty_sound. Qed.
+Print Assumptions C01_remove_empty_sound.
+
+(* the passes of convertMCNPGeometry after construct_volume_t4 (prune =
+   renumber_surfaces with the helper planes renumbered too, remove_empty_volumes,
+   remove_unused_volumes), for a table with distinct keys and a sigma that gives
+   merged surfaces the same sense: every surviving volume keeps its denotation;
+   a non-FICTIVE volume either survives (non-FICTIVE, same denotation) or is
+   deleted and then denotes false; nothing is added, FICTIVE flags are kept; a
+   deleted volume denotes false or is FICTIVE. *)
+Theorem C01_prune_sound : forall sigma u0 u1 rn d d',
+  NoDup (keys d) -> prune u0 u1 rn d = Ok d' -> consistent sigma u0 u1 ->
+  (forall r, rn = Some r -> respects sigma r) ->
+  NoDup (keys d') /\
+  (forall id v' b, lookup id d' = Some v' -> Vden sigma d id b -> Vden sigma d' id b) /\
+  (forall id v b, lookup id d = Some v -> v_fict v = false -> Vden sigma d id b ->
+     (exists v', lookup id d' = Some v' /\ v_fict v' = false /\ Vden sigma d' id b) \/
+     (lookup id d' = None /\ b = false)) /\
+  (forall id v', lookup id d' = Some v' -> exists v, lookup id d = Some v /\ v_fict v' = v_fict v) /\
+  (forall id v b, lookup id d = Some v -> lookup id d' = None -> Vden sigma d id b ->
+     b = false \/ v_fict v = true).
+Proof. exact prune_sound. Qed.
+Print Assumptions C01_prune_sound.
+
+(* THE PROPERTY, on the table that is written (conversion loop from the empty
+   state, prune, the writer's skipped-cells filter; the table of the loop has
+   distinct keys: convert_cells_keys).  For every sigma consistent on the helper
+   planes that gives merged surfaces the same sense: if the MCNP cell c owns sigma
+   and no other converted cell contains sigma (the cells partition the sense
+   assignments), then sigma lies in exactly one written non-FICTIVE volume, and
+   that volume has the number c, when c is in the conversion list (importance
+   <> 0); and in no written non-FICTIVE volume otherwise. *)
+Theorem C01_partition :
+  forall sigma cden cells matching u0 u1 fuel todo cnt0 s' rn skipped d' c,
   0 < u0 -> 0 < u1 -> consistent sigma u0 u1 ->
   (forall c g orig, lookup c cells = Some (g, orig) ->
      leaves_ok (msurf_ok matching) g /\ cden c = mden sigma cden matching g) ->
   NoDup todo -> (forall k, In k todo -> k <= cnt0) ->
   convert_cells fuel cells matching u0 u1 todo (mkSt cnt0 [] [] []) = Ok s' ->
+  prune u0 u1 rn (vols s') = Ok d' ->
+  (forall r, rn = Some r -> respects sigma r) ->
+  (forall k, In k skipped -> k <= cnt0 /\ ~ In k todo) ->
   cden c = true -> (forall c', In c' todo -> cden c' = true -> c' = c) ->
-  (In c todo -> forall k, in_volume sigma (vols s') k <-> k = c) /\
-  (~ In c todo -> forall k, ~ in_volume sigma (vols s') k).
+  (In c todo -> forall k, in_volume sigma (written skipped d') k <-> k = c) /\
+  (~ In c todo -> forall k, ~ in_volume sigma (written skipped d') k).
 Proof.
-  intros sigma cden cells matching u0 u1 fuel todo cnt0 s' c H0 H1 Hc Hok Hnd Hle H Hown Huniq.
-  exact (partition sigma cden cells matching u0 u1 H0 H1 Hc Hok fuel todo cnt0 s' c Hnd Hle H Hown Huniq).
+  intros sigma cden cells matching u0 u1 fuel todo cnt0 s' rn skipped d' c
+         H0 H1 Hc Hok Hnd Hle Hrun Hpr Hresp Hskip Hown Huniq.
+  exact (written_partition sigma cden cells matching u0 u1 H0 H1 Hc Hok fuel todo cnt0 s'
+           Hnd Hle Hrun rn skipped d' Hpr Hresp Hskip c Hown Huniq).
 Qed.
-Print Assumptions C01_partition_partial.
-
-(* renumber_surfaces (for a sigma that gives merged surfaces the same sense) and
-   remove_unused_volumes keep the denotation of every surviving volume; every
-   non-FICTIVE volume survives remove_unused_volumes, which deletes only FICTIVE
-   volumes that nothing references.
-   PARTIAL: remove_empty_volumes (the iterated deletion of patently empty
-   volumes) is modelled, tied and swept but not proved. *)
-Theorem C01_prune_sound_partial : forall sigma,
-  (forall rn d d', renumber rn d = Ok d' -> respects sigma rn ->
-     forall id b, Vden sigma d id b -> Vden sigma d' id b) /\
-  (forall d id v b, lookup id d = Some v -> v_fict v = false -> Vden sigma d id b ->
-     lookup id (remove_unused d) = Some v /\ Vden sigma (remove_unused d) id b) /\
-  (forall d id b, Vden sigma d id b ->
-     (forall v, lookup id d = Some v -> keep d (id, v) = true) -> Vden sigma (remove_unused d) id b) /\
-  (forall d id v, lookup id d = Some v -> lookup id (remove_unused d) = None ->
-     v_fict v = true /\ mem id (used_ids d) = false) /\
-  (forall d id v, lookup id (remove_unused d) = Some v -> In (id, v) d).
-Proof.
-  intros sigma. split; [exact (renumber_den sigma)|]. split; [exact (remove_unused_nonfictive sigma)|].
-  split; [exact (remove_unused_den sigma)|]. split; [exact remove_unused_deleted | exact remove_unused_sub].
-Qed.
-Print Assumptions C01_prune_sound_partial.
+Print Assumptions C01_partition.
 
 (* non-vacuity: five cells (three converted, one of importance 0, one filler kept
    by reference), a union without pure-intersection member, a surface of
-   reversed side; every hypothesis of C01_cells / C01_partition_partial holds *)
+   reversed side; every hypothesis of C01_cells / C01_partition holds, with a
+   renumbering and the skipped list [40] *)
 Example C01_example :
   (forall sigma c g orig, lookup c ex_cells = Some (g, orig) ->
      leaves_ok (msurf_ok ex_matching) g /\
      ex_cden sigma c = mden sigma (ex_cden sigma) ex_matching g) /\
   (forall sigma, exists c, In c [10; 20; 30; 40] /\ ex_cden sigma c = true /\
      forall c', In c' [10; 20; 30; 40] -> ex_cden sigma c' = true -> c' = c) /\
-  (exists s', convert_cells 6 ex_cells ex_matching 6 7 ex_todo (mkSt 50 [] [] []) = Ok s' /\
-     no_none (vols s') = true /\ NoDup ex_todo /\ (forall k, In k ex_todo -> k <= 50) /\
-     map fst (filter (fun kv => negb (v_fict (snd kv))) (vols s')) = [10; 20; 30]).
-Proof. split; [exact ex_cells_ok|]. split; [exact ex_partition | exact ex_run]. Qed.
+  (forall sigma, respects sigma ex_rn) /\
+  NoDup ex_todo /\ (forall k, In k ex_todo -> k <= 50) /\
+  (exists s' d', convert_cells 6 ex_cells ex_matching 6 7 ex_todo (mkSt 50 [] [] []) = Ok s' /\
+     prune 6 7 (Some ex_rn) (vols s') = Ok d' /\
+     map fst (filter (fun kv => negb (v_fict (snd kv))) (written [40] d')) = [10; 20; 30] /\
+     (forall k, In k [40] -> k <= 50 /\ ~ In k ex_todo)).
+Proof.
+  split; [exact ex_cells_ok|]. split; [exact ex_partition|]. split; [exact ex_rn_respects|].
+  destruct ex_run as (s' & _ & _ & Hnd & Hle & _). split; [exact Hnd|]. split; [exact Hle|].
+  exact ex_written.
+Qed.
